@@ -10,6 +10,7 @@ predicate rejected a real observation that no known finding explains),
 import concurrent.futures
 import hashlib
 import json
+import gc
 import multiprocessing
 import os
 import random
@@ -75,6 +76,10 @@ class Check:
         if not cases:
             return []
         ctx = multiprocessing.get_context('fork')
+        # the parent may hold millions of cases: keep the garbage collector of the workers away from the inherited heap
+        # (every traversal would copy its pages and make the first cases of a worker take seconds)
+        gc.collect()
+        gc.freeze()
         with ctx.Pool(NCPU, maxtasksperchild=2000) as pool:
             recs = pool.map(fn, cases, chunksize=chunksize)
         self.evaluations += len(recs)
